@@ -26,7 +26,7 @@ class Spec:
     trusted_base = []
     assumptions = []
     shrink_sep = None       # e.g. " ; " if a script line is an op sequence "head | op ; op ; ..." that may be shrunk
-    harness_timeout = {"quick": 600, "thorough": 3600}
+    harness_timeout = {"quick": 300, "thorough": 2400}
     harness_env = {}
 
     def oracle(self, script, impl):
